@@ -125,7 +125,7 @@ var progsPlain = []prog{
 	{Src: `"a\nb"`},
 	{Src: "[.,1]"},
 	{Src: "tostring"},
-	{Src: ".[]?"},
+	{Src: ".[]?", KeyLookup: true},
 	{Src: `"\(.)"`},
 	{Src: "[..]|length"},
 	{Src: ".==1"},
@@ -137,12 +137,15 @@ var progsPlain = []prog{
 	{Src: "-(1+1)", NeedsDD: true},
 	{Src: "-1|-.", NoJq: true},
 	// fail on some inputs
-	{Src: ".[0]"},
-	{Src: "keys"},
-	{Src: ".[]"},
+	{Src: ".[0]", KeyLookup: true, NoJq: true}, // ""|.[0] is null in gojq, an error in jq 1.6 (language, not CLI)
+	// keys/.[] of a JSON object decode value come in Go map order (gojqx.Object
+	// JQValueKeys/JQValueEach): value semantics, not the CLI; plain values only
+	{Src: "keys", KeyLookup: true},
+	{Src: ".[]", KeyLookup: true},
+	{Src: "ascii_downcase"},
 	{Src: "1+."},
 	{Src: "tonumber"},
-	{Src: "length"},
+	{Src: "length", KeyLookup: true}, // decode value -1 has length -1 (jq: 1); value semantics, not the CLI
 	{Src: `if type=="string" then error("boom") else . end`},
 	{Src: `if type=="number" then error else . end`},
 	{Src: `1,error("x"),2`},
@@ -198,7 +201,7 @@ var progsStr = []prog{
 	{Src: `.+"x"`, StrOnly: true},
 	{Src: `if .=="l1" then error("boom") else . end`, StrOnly: true},
 	{Src: `select(length>1)`, StrOnly: true},
-	{Src: `split(" ")`, StrOnly: true},
+	{Src: `split(" ")`, StrOnly: true, NoJq: true}, // ""|split(" ") is [] in jq 1.6, [""] in gojq
 }
 
 var strPool = []string{"", "a", "str", "l1", "two words", "x=y", "-n", "12", "é", `q"uote`, `back\slash`, "tab\t", "<&>", "--", "null"}
@@ -401,7 +404,9 @@ func runFq(argv []string, inputs []input, extraFiles map[string]string, stdin *i
 var classCache = map[string]int{}
 
 func measureClass(in *input, rawInput bool, decode string) int {
-	key := fmt.Sprintf("%v\x00%s\x00%s\x00%s\x00%s", rawInput, decode, in.Kind, in.Name, in.Data)
+	// the class is a property of (kind, content); it is measured under a
+	// neutral name (a name that mattered would show up as a model mismatch)
+	key := fmt.Sprintf("%v\x00%s\x00%s\x00%s", rawInput, decode, in.Kind, in.Data)
 	if v, ok := classCache[key]; ok {
 		return v
 	}
@@ -412,8 +417,10 @@ func measureClass(in *input, rawInput bool, decode string) int {
 	if decode != "probe" {
 		argv = append(argv, "-d", decode)
 	}
-	argv = append(argv, "--", "1", in.Name)
-	r := runFq(argv, []input{*in}, nil, nil)
+	probe := *in
+	probe.Name = "measured.input"
+	argv = append(argv, "--", "1", probe.Name)
+	r := runFq(argv, []input{probe}, nil, nil)
 	harness.ExtraAdd("class_measure_runs", 1)
 	cl := r.Exit
 	if cl == 0 && !rawInput && in.Kind != "json" {
@@ -536,6 +543,9 @@ type modelResult struct {
 	Why     string // reason when !OK
 	Classes string
 	ExprErr bool
+	// a program raised an error whose value is an object or array
+	CompoundErr bool
+	NullErr     bool // error(null): jq 1.6 does not count it as an error
 }
 
 func namedValues(c *cfg, files map[string]string, firstWins bool) (names []string, values []any, dup bool, ok bool) {
@@ -645,8 +655,16 @@ func runModel(c *cfg, files map[string]string, firstWins bool) modelResult {
 			if !ok {
 				return
 			}
-			if _, isErr := o.(error); isErr {
+			if e, isErr := o.(error); isErr {
 				expr = true
+				if ve, ok := e.(gojq.ValueError); ok {
+					switch ve.Value().(type) {
+					case map[string]any, []any:
+						res.CompoundErr = true
+					case nil:
+						res.NullErr = true
+					}
+				}
 				return
 			}
 			if s, isStr := o.(string); isStr && raw {
@@ -712,11 +730,12 @@ func chance(rt *rapid.T, label string, num, den int) bool {
 	return rapid.IntRange(1, den).Draw(rt, label) <= num
 }
 
-func genJSONInput(rt *rapid.T, name, label string) input {
+func genJSONInput(rt *rapid.T, name, label string, forceEOL bool) input {
 	v := genValue(rt, 2, label+"_v")
 	compact := rapid.Bool().Draw(rt, label+"_compact")
 	s := encJSON(v, compact)
-	if chance(rt, label+"_eol", 3, 4) {
+	// jq reads its files as one stream: "-1" + "1\n" is the number -11 there
+	if chance(rt, label+"_eol", 3, 4) || forceEOL {
 		s += "\n"
 	}
 	return input{Name: name, Kind: "json", Data: s, val: v}
@@ -759,13 +778,13 @@ func genInputs(rt *rapid.T, c *cfg, n int) {
 			if k <= 5 {
 				in = input{Name: name, Kind: "text", Data: pick(rt, label+"_text", textPool)}
 			} else {
-				in = genJSONInput(rt, name, label)
+				in = genJSONInput(rt, name, label, c.JqCompat && !c.R)
 				in.Kind = "text"
 			}
 		case k <= 3 && c.decodeGroup() == "probe":
 			in = input{Name: name, Kind: "bad", Data: pick(rt, label+"_bad", badPool)}
 		default:
-			in = genJSONInput(rt, name, label)
+			in = genJSONInput(rt, name, label, c.JqCompat && !c.R)
 		}
 		c.Inputs = append(c.Inputs, in)
 	}
@@ -838,7 +857,7 @@ func genCfg(rt *rapid.T) *cfg {
 		case chance(rt, "stdin_bad", 1, 4) && c.decodeGroup() == "probe":
 			st = input{Name: "<stdin>", Kind: "bad", Data: pick(rt, "stdin_badv", badPool)}
 		default:
-			st = genJSONInput(rt, "<stdin>", "stdin")
+			st = genJSONInput(rt, "<stdin>", "stdin", false)
 		}
 		c.Stdin = &st
 	}
@@ -903,6 +922,9 @@ func genCfg(rt *rapid.T) *cfg {
 	}
 	if c.Prog.NeedsDD && c.FromFile {
 		c.Prog.NeedsDD = false
+	}
+	if c.Prog.NeedsDD {
+		c.JqCompat = false // jq 1.6 has no `--` before the program
 	}
 	// argument error
 	if chance(rt, "argerr", 1, 7) {
@@ -1020,6 +1042,12 @@ func render(rt *rapid.T, c *cfg) (argv []string, feats []string) {
 			gs = append(gs, valGroup(rt, c, "fd", "-d", "--decode", "json"))
 		case "dprobe":
 			gs = append(gs, valGroup(rt, c, "fd", "-d", "--decode", "probe"))
+		case "V":
+			gs = append(gs, boolGroup(rt, c, "fV", "-V", []string{"--value-output"}, "value_output"))
+		default:
+			if strings.HasPrefix(n, "d:") {
+				gs = append(gs, valGroup(rt, c, "fd", "-d", "--decode", n[2:]))
+			}
 		}
 	}
 	if c.FromFile {
@@ -1355,9 +1383,25 @@ func runJq(argv []string, c *cfg, files map[string]string) (runResult, bool) {
 }
 
 // jqDomain says whether jq 1.6 and fq are expected to agree on this command line.
-func jqDomain(c *cfg, feats []string, m modelResult) (bool, string) {
+func jqDomain(c *cfg, argv, feats []string, m modelResult) (bool, string) {
 	if !c.JqCompat {
 		return false, "not-drawn"
+	}
+	if m.NullErr {
+		return false, "error-null"
+	}
+	for _, a := range argv {
+		if a == "--" {
+			break
+		}
+		// jq 1.6 rejects a letter repeated inside one group of short flags
+		if len(a) > 2 && a[0] == '-' && a[1] != '-' {
+			for i := 1; i < len(a); i++ {
+				if strings.IndexByte(a[i+1:], a[i]) >= 0 {
+					return false, "repeated-letter-in-group"
+				}
+			}
+		}
 	}
 	for _, f := range feats {
 		switch f {
@@ -1395,6 +1439,23 @@ func jqDomain(c *cfg, feats []string, m modelResult) (bool, string) {
 	}
 	if c.R && c.Prog.Partial && unreadable {
 		return false, "raw-input-lazy"
+	}
+	// jq 1.6's main loop stops fetching once an input file failed to open: it
+	// still processes the one value that the failing fetch delivered
+	if !c.N && !c.S {
+		after := -1
+		for _, in := range c.Inputs {
+			if !in.readable() {
+				if after < 0 {
+					after = 0
+				}
+			} else if after >= 0 {
+				after++
+			}
+		}
+		if after > 1 || (c.R && after > 0) {
+			return false, "jq16-stops-after-open-error"
+		}
 	}
 	return true, ""
 }
@@ -1455,7 +1516,12 @@ func show(b []byte) string {
 }
 
 func TestModel(t *testing.T) {
-	harness.Rapid(t, 3600, 60000, func(rt *rapid.T, c *harness.Case) {
+	t.Cleanup(func() {
+		if jqTmp != "" {
+			_ = os.RemoveAll(jqTmp)
+		}
+	})
+	harness.Rapid(t, 3600, 44000, func(rt *rapid.T, c *harness.Case) {
 		cf := genCfg(rt)
 		argv, feats := render(rt, cf)
 		files := map[string]string{}
@@ -1553,6 +1619,8 @@ func TestModel(t *testing.T) {
 			rawEmpty = n > 0 && sz == 0
 		}
 		switch {
+		case m.CompoundErr:
+			suffix = ":compound-error-value"
 		case cf.N && cf.S && !cf.R && cf.Prog.UsesInput:
 			suffix = ":null-input-slurp-input"
 		case rawEmpty && (!cf.N || cf.Prog.UsesInput):
@@ -1568,7 +1636,7 @@ func TestModel(t *testing.T) {
 		c.Check(res.Exit == m.Exit, "model-exit"+suffix, "argv %q: exit %d, want %d (classes seen by the model: %s; stderr %q)", argv, res.Exit, m.Exit, m.Classes, res.Stderr)
 
 		// 4. the real jq
-		if ok, why := jqDomain(cf, feats, m); ok && jqAvailable() {
+		if ok, why := jqDomain(cf, argv, feats, m); ok && jqAvailable() {
 			jr, ran := runJq(argv, cf, files)
 			if !ran {
 				harness.ExtraAdd("jq_inconclusive", 1)
@@ -1586,4 +1654,286 @@ func TestModel(t *testing.T) {
 		distinctClasses := strings.Count(m.Classes, "+") + 1
 		c.SetNonTrivial((len(cf.Inputs) >= 2 && distinctClasses >= 2) || nModes >= 2)
 	})
+}
+
+// ---------------------------------------------------------------------------
+// TestIndependence: combined run versus solo runs
+
+type indepInput struct {
+	in input
+}
+
+var (
+	indepPool     []input
+	indepPoolOnce bool
+)
+
+func indepInputs() []input {
+	if indepPoolOnce {
+		return indepPool
+	}
+	indepPoolOnce = true
+	indepPool = []input{
+		{Name: "j1.json", Kind: "json", Data: `{"a":{"b":1},"c":"x"}` + "\n"},
+		{Name: "j2.json", Kind: "json", Data: `"str"` + "\n"},
+		{Name: "j3.json", Kind: "json", Data: "12"},
+		{Name: "j4.json", Kind: "json", Data: `[1,"two",null]` + "\n"},
+		{Name: "j5.json", Kind: "json", Data: "null\n"},
+		{Name: "bad1", Kind: "bad", Data: "a\n"},
+		{Name: "bad2", Kind: "bad", Data: ""},
+		{Name: "t1.txt", Kind: "bad", Data: "l1\nl2\n"},
+		{Name: "nofile", Kind: "missing"},
+		{Name: "nofile2", Kind: "missing"},
+		{Name: "somedir", Kind: "dir"},
+		{Name: "-c", Kind: "json", Data: "7\n"},
+	}
+	for _, ref := range []string{
+		"pkg/interp/testdata/test.mp3",
+		"format/gzip/testdata/test.gz",
+		"format/png/testdata/4x4.png",
+		"format/tzif/testdata/UTC",
+		"format/xml/testdata/simple.xml",
+		"format/mp3/testdata/mp3_frame_xing",
+		"format/id3/testdata/id3v1",
+	} {
+		b, err := os.ReadFile(filepath.Join(fqx.RepoDir(), ref))
+		if err != nil {
+			continue
+		}
+		indepPool = append(indepPool, input{Name: filepath.Base(ref), Kind: "bin", Ref: ref, raw: b})
+	}
+	return indepPool
+}
+
+var indepProgs = []prog{
+	{Src: "."}, {Src: "."},
+	{Src: "d"},
+	{Src: "tovalue"},
+	{Src: "format"},
+	{Src: "input_filename"},
+	{Src: "type"},
+	{Src: "keys|length"},
+	{Src: ".[0]"},
+	{Src: ".a"},
+	{Src: "1+."},
+	{Src: "tobytes|length"},
+	{Src: `error("x")`},
+	{Src: `if format=="json" then error("boom") else format end`},
+	{Src: `1,error("x"),2`},
+	{Src: ".frames[0].header|tovalue"},
+	{Src: "tobytes[0:4]"},
+	{Src: "(", NoCompile: true},
+	{Src: "nosuchfn", NoCompile: true},
+}
+
+type indepProfile struct {
+	R, Rr, J, Z, C bool
+	Neutral        []string
+}
+
+var indepProfiles = []indepProfile{
+	{}, {}, {},
+	{Rr: true},
+	{C: true},
+	{J: true},
+	{Z: true},
+	{Rr: true, C: true},
+	{Neutral: []string{"V"}},
+	{Neutral: []string{"V"}, Rr: true},
+	{R: true},
+	{R: true, Rr: true},
+	{Neutral: []string{"d:json"}},
+	{Neutral: []string{"d:mp3"}},
+	{Neutral: []string{"d:mp3_frame"}, C: true},
+	{Neutral: []string{"d:nosuchformat"}},
+	{Neutral: []string{"M"}},
+}
+
+var soloCache = map[string]runResult{}
+
+func exitPrecedence(exits []int) (int, bool) {
+	has := map[int]bool{}
+	for _, e := range exits {
+		has[e] = true
+		switch e {
+		case 0, 2, 3, 4, 5:
+		default:
+			return 0, false
+		}
+	}
+	switch {
+	case has[3]:
+		return 3, true
+	case has[2]:
+		return 2, true
+	case has[4]:
+		return 4, true
+	case has[5]:
+		return 5, true
+	}
+	return 0, true
+}
+
+func TestIndependence(t *testing.T) {
+	harness.Rapid(t, 800, 10000, func(rt *rapid.T, c *harness.Case) {
+		pool := indepInputs()
+		cf := &cfg{}
+		pr := pick(rt, "profile", indepProfiles)
+		cf.R, cf.Rr, cf.J, cf.Z, cf.C = pr.R, pr.Rr, pr.J, pr.Z, pr.C
+		cf.Neutral = append([]string{}, pr.Neutral...)
+		cf.Prog = pick(rt, "prog", indepProgs)
+		cf.FromFile = chance(rt, "fromfile", 1, 10)
+		n := rapid.SampledFrom([]int{2, 2, 3, 3, 4}).Draw(rt, "nin")
+		for i := 0; i < n; i++ {
+			in := pick(rt, fmt.Sprintf("in%d", i), pool)
+			if cf.R && in.readable() && !bytes.HasSuffix(in.bytes(), []byte("\n")) {
+				// -R joins a file without final newline with the next one (as jq
+				// does); a solo run cannot show that
+				in = pool[0]
+			}
+			cf.Inputs = append(cf.Inputs, in)
+		}
+		argv, feats := render(rt, cf)
+		files := map[string]string{}
+		if cf.FromFile {
+			files["prog.jq"] = cf.Prog.Src
+		}
+		setCase(c, cf, argv, files)
+		res := runFq(argv, cf.Inputs, files, nil)
+		c.Stepf("combined -> exit %d stdout %s stderr %s", res.Exit, show(res.Stdout), show([]byte(res.Stderr)))
+		var wantOut []byte
+		var exits []int
+		classes := map[int]bool{}
+		var soloErrLines []string
+		for i := range cf.Inputs {
+			in := cf.Inputs[i]
+			sargv := canonical(cf, in.Name)
+			key := strings.Join(sargv, "\x00") + "\x01" + cf.Prog.Src + "\x01" + in.Kind + "\x01" + in.Data + in.Ref
+			sr, ok := soloCache[key]
+			if !ok {
+				sr = runFq(sargv, []input{in}, files, nil)
+				soloCache[key] = sr
+				harness.ExtraAdd("solo_runs", 1)
+			} else {
+				harness.ExtraAdd("solo_cache_hits", 1)
+			}
+			c.Stepf("solo %q -> exit %d stdout %s stderr %s", in.Name, sr.Exit, show(sr.Stdout), show([]byte(sr.Stderr)))
+			wantOut = append(wantOut, sr.Stdout...)
+			exits = append(exits, sr.Exit)
+			classes[sr.Exit] = true
+			for _, l := range vos.Lines([]byte(sr.Stderr)) {
+				soloErrLines = append(soloErrLines, l)
+			}
+		}
+		var mix []string
+		for _, e := range []int{0, 2, 3, 4, 5} {
+			if classes[e] {
+				mix = append(mix, strconv.Itoa(e))
+			}
+		}
+		c.Label("indep-mix:" + strings.Join(mix, "+"))
+		c.Label(fmt.Sprintf("indep-exit:%d", res.Exit))
+		c.Label(fmt.Sprintf("inputs:%d", len(cf.Inputs)))
+		for _, f := range feats {
+			c.Label("spell:" + f)
+		}
+		for _, in := range cf.Inputs {
+			c.Label("indep-kind:" + in.Kind)
+		}
+		want, ok := exitPrecedence(exits)
+		if !ok {
+			c.Failf("indep-solo-exit", "a solo run ended with a status outside 0,2,3,4,5: %v (argv %q)", exits, argv)
+		}
+		suffix := ""
+		if cf.R && cf.Prog.Src == "input_filename" {
+			suffix = ":raw-input-filename"
+		} else if !cf.R {
+			for i := 1; i < len(cf.Inputs); i++ {
+				if !cf.Inputs[i-1].readable() && cf.Inputs[i].readable() {
+					suffix = ":after-open-failure"
+				}
+			}
+		}
+		c.Check(bytes.Equal(res.Stdout, wantOut), "indep-stdout"+suffix, "argv %q: combined stdout %s, concatenated solo stdouts %s", argv, show(res.Stdout), show(wantOut))
+		c.Check(res.Exit == want, "indep-exit", "argv %q: combined exit %d, solo exits %v give %d", argv, res.Exit, exits, want)
+		// every stderr line of a solo run occurs in the combined run (multiset)
+		have := map[string]int{}
+		for _, l := range vos.Lines([]byte(res.Stderr)) {
+			have[l]++
+		}
+		// (under -R all files are read before the first line is processed and
+		// messages name the last file; message text is not part of the property)
+		if want != 3 && !cf.R {
+			for _, l := range soloErrLines {
+				if have[l] == 0 {
+					c.Failf("indep-stderr", "argv %q: solo stderr line %q is missing from the combined stderr %q", argv, l, res.Stderr)
+				}
+				have[l]--
+			}
+		}
+		c.SetNonTrivial(len(mix) >= 2)
+	})
+}
+
+// ---------------------------------------------------------------------------
+// fixed seeds: the minimal reproductions of the findings (regression seeds
+// once repaired; until then they are counted as known findings on every run)
+
+func TestSeeds(t *testing.T) {
+	if harness.E.Shard != 0 {
+		t.Skip("seeds run in shard 0")
+	}
+	js := func(name, data string) input { return input{Name: name, Kind: "json", Data: data} }
+	type seed struct {
+		sig    string
+		argv   []string
+		inputs []input
+		stdout string
+		exit   int
+	}
+	seeds := []seed{
+		{"model-stdout:compound-error-value", []string{"if .==1 then error({}) else . end", "one.json", "two.json"}, []input{js("one.json", "1\n"), js("two.json", "2\n")}, "2\n", 5},
+		{"model-exit:compound-error-value", []string{"error({})", "nofile", "one.json"}, []input{{Name: "nofile", Kind: "missing"}, js("one.json", "1\n")}, "", 2},
+		{"model-stdout:null-input-slurp-input", []string{"-nsc", "input", "one.json", "two.json"}, []input{js("one.json", "1\n"), js("two.json", "2\n")}, "[1,2]\n", 0},
+		{"model-stdout:named-argument-duplicate", []string{"-n", "--arg", "x", "1", "--arg", "x", "2", "$x"}, nil, "\"1\"\n", 0},
+		{"model-stdout:raw-input-empty", []string{"-R", ".", "empty"}, []input{{Name: "empty", Kind: "text", Data: ""}}, "", 0},
+		{"model-stdout", []string{"-rj", "--arg", "x", "-n", "--", ".,$x", "-c"}, []input{js("-c", "7\n")}, "7-n", 0},
+		{"model-exit", []string{".", "nofile", "bad", "one.json"}, []input{{Name: "nofile", Kind: "missing"}, {Name: "bad", Kind: "bad", Data: "a\n"}, js("one.json", "1\n")}, "1\n", 2},
+	}
+	for i, s := range seeds {
+		r := runFq(s.argv, s.inputs, nil, nil)
+		harness.Count(harness.HashInts(1700, uint64(i)), true, "seed")
+		if string(r.Stdout) != s.stdout || r.Exit != s.exit {
+			msg := fmt.Sprintf("seed %q: exit %d stdout %q, want exit %d stdout %q (stderr %q)", s.argv, r.Exit, r.Stdout, s.exit, s.stdout, r.Stderr)
+			if harness.Violate(t.Name(), s.sig, msg, map[string]any{"argv": s.argv, "inputs": s.inputs}) {
+				t.Error(msg)
+			}
+		}
+	}
+	// independence seeds: combined versus solo
+	mp3, err := os.ReadFile(filepath.Join(fqx.RepoDir(), "pkg/interp/testdata/test.mp3"))
+	if err == nil {
+		bin := input{Name: "test.mp3", Kind: "bin", raw: mp3}
+		comb := runFq([]string{".", "nofile", "test.mp3"}, []input{{Name: "nofile", Kind: "missing"}, bin}, nil, nil)
+		solo := runFq([]string{".", "test.mp3"}, []input{bin}, nil, nil)
+		harness.Count(harness.HashInts(1700, 100), true, "seed")
+		if !bytes.Equal(comb.Stdout, solo.Stdout) || comb.Exit != 2 {
+			msg := fmt.Sprintf("seed fq . nofile test.mp3: exit %d stdout %s; alone test.mp3 gives %s", comb.Exit, show(comb.Stdout), show(solo.Stdout))
+			if harness.Violate(t.Name(), "indep-stdout:after-open-failure", msg, "fq . nofile test.mp3") {
+				t.Error(msg)
+			}
+		}
+	}
+	{
+		a := input{Name: "a", Kind: "text", Data: "l1\n"}
+		b := input{Name: "b", Kind: "text", Data: "l2\n"}
+		comb := runFq([]string{"-R", "input_filename", "a", "b"}, []input{a, b}, nil, nil)
+		harness.Count(harness.HashInts(1700, 101), true, "seed")
+		if string(comb.Stdout) != "\"a\"\n\"b\"\n" {
+			msg := fmt.Sprintf("seed fq -R input_filename a b: stdout %s", show(comb.Stdout))
+			if harness.Violate(t.Name(), "indep-stdout:raw-input-filename", msg, "fq -R input_filename a b") {
+				t.Error(msg)
+			}
+		}
+	}
 }
